@@ -244,6 +244,32 @@ def _deep(ip, st, v, deep=False):
     return v
 
 
+def _shallow(ip, st, v):
+    """copy.copy: a NEW top-level object holding the very same items / field values as the original (nothing below the top
+    level is copied)"""
+    from .sym import ValCell, LstCell, PyListCell, PyDictCell, ObjCell
+    if isinstance(v, Ref) and not v.path:
+        cell = st.heap[v.cid]
+        if isinstance(cell, ValCell):
+            from .dicts import mark_shallow
+            r = ip.new_cell(st, ValCell(ip.deref(st, v)))
+            mark_shallow(st, r, v)
+            return r
+        if isinstance(cell, LstCell):
+            el = ip.reg.lst_elem.get(ip.deref(st, v).sort)
+            if el is not None and ip.reg.is_lst(el):
+                raise U("shallow copy of a list of lists (the inner lists stay shared)")
+            return ip.new_cell(st, LstCell(ip.deref(st, v)))
+        if isinstance(cell, PyListCell):
+            return ip.new_cell(st, PyListCell(list(cell.items)))
+        if isinstance(cell, PyDictCell):
+            return ip.new_cell(st, PyDictCell(dict(cell.items)))
+        if isinstance(cell, ObjCell):
+            return ip.new_cell(st, ObjCell(cell.cls, dict(cell.fields)))
+        raise U("copy.copy of " + type(cell).__name__)
+    return _deep(ip, st, v)
+
+
 def lib_islice(ip, st, pos, kws):
     """itertools.islice(it, n): at most n further values of the underlying iterator (which advances with it)"""
     from .sym import NoneV
@@ -441,7 +467,7 @@ LIB = {("os.path", "exists"): lib_path_exists, ("os.path", "dirname"): lib_dirna
        ("os", "error"): __import__("pyvc.sym", fromlist=["Fun"]).Fun("exc", name="OSError"),      # os.error is OSError
        ("os", "sep"): __import__("pyvc.sym", fromlist=["Str"]).Str("/"),          # a constant, not a function (posix)
        ("itertools", "islice"): lib_islice, ("copy", "deepcopy"): lib_deepcopy, "deepcopy": lib_deepcopy,
-       ("copy", "copy"): lambda ip, st, pos, kws: [(st, _deep(ip, st, pos[0]))],        # a new top-level object, NOT a deep copy
+       ("copy", "copy"): lambda ip, st, pos, kws: [(st, _shallow(ip, st, pos[0]))],     # a new top-level object, NOT a deep copy
        ("pickle", "dump"): lib_pickle_dump, "pickle.dump": lib_pickle_dump,
        ("pickle", "load"): lib_pickle_load, "pickle.load": lib_pickle_load,
        ("os", "replace"): lib_os_replace, ("os", "rename"): lib_os_replace, ("os", "remove"): lib_os_remove,
